@@ -178,7 +178,7 @@ def canon(v, depth=0):
         return ("exc", type(v).__name__)
     if isinstance(v, type):
         return ("type", v.__name__)
-    if callable(v):
+    if callable(v) or t.__name__ in ("EvalFunc", "EvalFuncVar", "EvalFuncVarClassInst"):
         return ("callable",)
     return ("obj", t.__name__)
 
